@@ -1,9 +1,92 @@
-"""C47 -- bounded (built separately in contracts/parts); deductive contracts to be added."""
-from contracts._parts import bounded, EXPLORATION_NOTE
+"""C47 -- PROXY protocol headers are parsed regardless of segmentation.
 
-CONTRACTS = []
+Deductive: V1Parser.feed (twisted.protocols.haproxy._v1parser) is loop free; for an arbitrary buffer left by earlier
+deliveries and an arbitrary new segment it is proved to act on their *concatenation*: when the concatenation contains
+CR LF the header handed to parse() is everything before the first CR LF and the second result is everything after it
+(header + CRLF + remaining == buffer + segment), the buffer is emptied; otherwise nothing is returned and the buffer is
+the concatenation (more than 107 bytes without CR LF is refused).  Segmentation independence of the v1 header follows:
+feeding s1 then s2 behaves as feeding s1 + s2.
+Bounded (contracts/parts/C47_bounded.py): whole v1 / v2 headers through HAProxyWrappingFactory, every split.
+"""
+from pyvc.api import *
+from pyvc import core
+from contracts._parts import bounded
+from twisted.protocols.haproxy import _v1parser
+from twisted.protocols.haproxy._exceptions import InvalidProxyHeader
+
+NL = b"\r\n"
+
+
+def has_nl(b):
+    if not is_sym(b):
+        return NL in bytes(b)
+    return core.seq_contains(b, NL)
+
+
+def parse_summary(I, parser, header):
+    """V1Parser.parse is verified separately only in the bounded tier; here it is an opaque function of the header line"""
+    c = ctx()
+    c.emit("parse", parser, (header,))
+    return c.ghost["$contract"].opaque("info")
+
+
+class V1Feed(Contract):
+    prop = "C47"
+    module = "twisted.protocols.haproxy._v1parser"
+    function = "V1Parser.feed"
+    differential = False
+    summaries = {"V1Parser.parse": parse_summary}
+    inputs = dict(buffered=Bytes(alphabet=b"P\r\n", small_len=2), data=Bytes(alphabet=b"x\r\n", small_len=3))
+    trusted = ["bytes.split(sep, 1) splits at the first occurrence (library axiom)",
+               "V1Parser.parse as an opaque function of the header line (bounded tier)"]
+    timeout_quick = 60
+
+    def requires(self, i):
+        # what earlier feed() calls can leave behind: no complete line, at most 107 bytes
+        return band(bnot(has_nl(i.buffered)), L(i.buffered) <= 107)
+
+    def setup(self, i):
+        p = self.make(_v1parser.V1Parser, buffer=i.buffered)
+        return dict(self=p, args=[i.data], objs=dict(p=p))
+
+    def bounded_inputs(self, tier):
+        return iter(())  # parse() is a summary here; the real parser runs in the bounded part
+
+    raises = {InvalidProxyHeader: lambda S: band(bnot(has_nl(S.i.buffered + S.i.data)), L(S.i.buffered) + L(S.i.data) > 107)}
+
+    def _acts_on_concatenation(S):
+        if S.exc is not None:
+            return None
+        whole = S.i.buffered + S.i.data
+        parsed = [e for e in S.trace if e.name == "parse"]
+        if not has_nl(whole):
+            return band(S.result[0] is None, S.result[1] is None, len(parsed) == 0, veq(S.new.p.buffer, whole))
+        if len(parsed) != 1:
+            return False
+        header, remaining = parsed[0].args[0], S.result[1]
+        return band(veq(header + NL + remaining, whole), bnot(has_nl(header)), S.result[0] is not None,
+                    L(S.new.p.buffer) == 0)
+
+    ensures = dict(acts_on_buffer_plus_segment=_acts_on_concatenation)
+    canaries = [("self.buffer += data", "self.buffer = data", "acts_on_buffer_plus_segment"),
+                ("lines = (self.buffer).split(self.NEWLINE, 1)", "lines = (data).split(self.NEWLINE, 1)", "acts_on_buffer_plus_segment")]
+
+
+CONTRACTS = [V1Feed]
 BOUNDED = bounded("C47")
-NOTES = dict(explanation="bounded stand-in", not_covered=["deductive contracts"])
-MANIFEST = dict(category="exploration", text="Bounded stand-in only (see contracts/parts/C47_bounded.py for the scopes).",
-                note=EXPLORATION_NOTE,
-                technique="bounded exhaustive evaluation of an executable contract on the real code (stand-in; not proved)")
+NOTES = dict(explanation="V1Parser.feed proved to act on the concatenation of everything fed so far; whole headers bounded "
+                         "(see contracts/parts/C47_bounded.py for the scopes).",
+             not_covered=["V1Parser.parse / V2Parser.feed / parse and HAProxyProtocolWrapper.dataReceived as deductive "
+                          "contracts (field validation by str.split / int() / ipaddress, struct layouts: bounded tier only)"])
+MANIFEST = dict(
+    category="proof",
+    text="V1Parser.feed is proved, for an arbitrary leftover buffer (no CR LF, at most 107 bytes) and an arbitrary new "
+         "segment, to act on their concatenation: with a CR LF present the header passed to parse() is the text before the "
+         "first CR LF and the returned remainder is the text after it (header + CRLF + remaining == buffer + segment, buffer "
+         "emptied); without one nothing is returned and the buffer is the concatenation, more than 107 bytes raising "
+         "InvalidProxyHeader -- hence v1 headers are segmentation independent at this layer.  Field parsing, version 2 and "
+         "the wrapper are exercised in the bounded tier only (contracts/parts/C47_bounded.py).",
+    note="Trusted: pyvc, SMT solvers, bytes.split(sep, 1) axiom, parse() as an opaque summary.  Everything else: bounded, "
+         "never counted as proved.",
+    technique="contract-based deductive verification (exhaustive symbolic execution of loop-free code over byte sequences, SMT) + bounded exhaustive headers and splits",
+)
